@@ -7,9 +7,11 @@
 package main
 
 import (
+	"bytes"
 	"fmt"
 	"go/ast"
 	"go/parser"
+	"go/printer"
 	"go/token"
 	"os"
 	"path/filepath"
@@ -435,6 +437,40 @@ func main() {
 		return true
 	})
 	p("def lexerRules : List (String × String) := [%s]\n", strings.Join(rules, ", "))
+	// grammar: struct tags of Asm, Arg, Instruction in declaration order, and the elided token types
+	var gram []string
+	var elided []string
+	ast.Inspect(af, func(n ast.Node) bool {
+		switch x := n.(type) {
+		case *ast.TypeSpec:
+			st, ok := x.Type.(*ast.StructType)
+			if !ok || (x.Name.Name != "Asm" && x.Name.Name != "Arg" && x.Name.Name != "Instruction") {
+				return true
+			}
+			for _, f := range st.Fields.List {
+				if f.Tag == nil || len(f.Names) != 1 {
+					continue
+				}
+				tag, _ := strconv.Unquote(f.Tag.Value)
+				var tb bytes.Buffer
+				printer.Fprint(&tb, token.NewFileSet(), f.Type)
+				gram = append(gram, fmt.Sprintf("(%s, %s, %s, %s)", leanStr(x.Name.Name), leanStr(f.Names[0].Name), leanStr(tb.String()), leanStr(tag)))
+			}
+		case *ast.CallExpr:
+			if se, ok := x.Fun.(*ast.SelectorExpr); ok && se.Sel.Name == "Elide" {
+				for _, a := range x.Args {
+					if bl, ok := a.(*ast.BasicLit); ok {
+						v, _ := strconv.Unquote(bl.Value)
+						elided = append(elided, leanStr(v))
+					}
+				}
+			}
+		}
+		return true
+	})
+	p("/-- asm/asm.go: participle grammar (struct, field, Go type, tag) and elided token types -/\n")
+	p("def asmGrammar : List (String × String × String × String) := [%s]\n", strings.Join(gram, ", "))
+	p("def asmElided : List String := [%s]\n", strings.Join(elided, ", "))
 	mf := parseFile(repo, "asm/menu.go")
 	men := env{}
 	consts(mf, men)
